@@ -82,6 +82,7 @@ func (g *gram) next() *sym {
 	s := g.peek()
 	if s != nil {
 		g.i++
+		g.comments = append(g.comments, s.inner...)
 	}
 	return s
 }
@@ -169,6 +170,14 @@ func hereParts(s string) ast.Word {
 	}
 	for i := 0; i < len(s); {
 		switch {
+		case strings.HasPrefix(s[i:], "${v}"):
+			flush()
+			w = append(w, wPEB("v", "", nil))
+			i += 4
+		case strings.HasPrefix(s[i:], "$1"):
+			flush()
+			w = append(w, wPE("1"))
+			i += 2
 		case strings.HasPrefix(s[i:], "$v"):
 			flush()
 			w = append(w, wPE("v"))
